@@ -1241,19 +1241,23 @@ class EdgeQLSourceGenerator(codegen.SourceGenerator):
             self.visit_list(node.bases)
 
     def visit_CreateDatabase(self, node: qlast.CreateDatabase) -> None:
+        def after_name() -> None:
+            self._write_keywords(' FROM ')
+            assert node.template
+            self.visit(node.template)
+
         if node.flavor == qltypes.SchemaObjectClass.BRANCH:
             if node.branch_type == qlast.BranchType.EMPTY:
                 self._visit_CreateObject(node, 'EMPTY BRANCH')
             else:
-
-                def after_name() -> None:
-                    self._write_keywords(' FROM ')
-                    assert node.template
-                    self.visit(node.template)
                 self._visit_CreateObject(
                     node, f'{node.branch_type} BRANCH', after_name=after_name)
         elif node.flavor == qltypes.SchemaObjectClass.DATABASE:
-            self._visit_CreateObject(node, 'DATABASE')
+            self._visit_CreateObject(
+                node,
+                'DATABASE',
+                after_name=after_name if node.template else None,
+            )
         else:
             raise EdgeQLSourceGeneratorError(
                 f'unknown branch command flavor: {node.flavor!r}'
